@@ -178,7 +178,8 @@ def rebin_case(draw):
     dtype = draw(st.sampled_from(['f8', 'f4', 'i4', 'i2']))
     n = int(np.prod(shape))
     if dtype[0] in 'iu':
-        x = [draw(st.integers(0, 100)) for _ in range(n)]
+        top = draw(st.sampled_from([100, 32000 if dtype == 'i2' else 2000000000]))      # block sums must not wrap in the input dtype
+        x = [draw(st.one_of(st.integers(0, top), st.sampled_from([top, top - 1, 0]))) for _ in range(n)]
     else:
         x = [100 * draw(uf) for _ in range(n)]
     return dict(shape=shape, target=target, ops=ops, dtype=dtype, x=x, sample=draw(st.booleans()))
